@@ -169,6 +169,15 @@ func key3(ts []*sdf.Triangle3) string {
 	return fmt.Sprintf("%d:%x", len(ts), h.Sum(nil)[:8])
 }
 
+// boxedS is a shape evaluated inside a sampling box of the harness's choosing.
+type boxedS struct {
+	s  sdf.SDF3
+	bb sdf.Box3
+}
+
+func (b boxedS) Evaluate(p v3.Vec) float64 { return b.s.Evaluate(p) }
+func (b boxedS) BoundingBox() sdf.Box3     { return b.bb }
+
 // scripted renderers for the file-sink scenarios
 type scriptedLines struct{ first, batches int }
 
@@ -390,6 +399,17 @@ func prepare(sc scen, j *vlib.Job) *prepared {
 		p.body = func() {
 			out = nil
 			out = append(out, key3(render.ToTriangles(s, mk())))
+		}
+	case "uniform-big-layer":
+		// a thin slab whose YZ layers hold 103 x 103 = 10609 lattice points, i.e. 107 evaluation batches per layer - more
+		// than the evaluation queue (100) plus the workers hold at once (round 9: batch buffers recycled in a ring that is
+		// sized from those hidden numbers), under the fixed scheduling policies, which starve one worker
+		sp, _ := sdf.Sphere3D(1)
+		slab := boxedS{sp, sdf.Box3{Min: v3.Vec{X: -0.01, Y: -1.5, Z: -1.5}, Max: v3.Vec{X: 0.01, Y: 1.5, Z: 1.5}}}
+		p.body = func() {
+			out = nil
+			vsync.SetNumCPU(sc.Workers)
+			out = append(out, key3s(render.ToTriangles(slab, render.NewMarchingCubesUniform(102))))
 		}
 	case "octree-deep":
 		// a long thin bar at 260 and 520 cells (round 8): octrees of 10 and 11 levels, whose top levels a renderer might
@@ -626,7 +646,7 @@ func prepare(sc scen, j *vlib.Job) *prepared {
 		}
 		vsync.RunOnce(nil, false, p.body)
 		p.indep = fmt.Sprint([]string{refd})
-	case "dxf-two", "dxf-history", "3mf-two", "dxf-todxf-savedxf", "dxf-todxf-poly":
+	case "dxf-two", "dxf-history", "3mf-two", "3mf-two-empty", "dxf-two-empty", "dxf-todxf-savedxf", "dxf-todxf-poly":
 		// file sinks that go to the real file system (their libraries take a path): two different renders
 		// concurrently, and A;B;A one after the other; every file must equal the one written by the same
 		// render executed alone (3MF: decoded content, as the property says; DXF: bytes)
@@ -644,6 +664,14 @@ func prepare(sc scen, j *vlib.Job) *prepared {
 				pl.Add(2, 0)
 				pl.Add(1, 3)
 				render.Poly(pl, path)
+			} else if strings.HasSuffix(sc.Kind, "-empty") {
+				// the first render produces nothing at all (round 9): no batch ever reaches the writer goroutine, and the
+				// file must still be complete when the call returns
+				if ext == "dxf" {
+					render.ToDXF(circle{1}, path, scriptedLines{first: 100 * which, batches: 2 * which})
+				} else {
+					render.To3MF(s3a, path, scriptedTris{first: 100 * which, batches: 2 * which})
+				}
 			} else if ext == "dxf" {
 				render.ToDXF(circle{1}, path, scriptedLines{first: 100 * which, batches: 2 + which})
 			} else {
@@ -810,11 +838,12 @@ func main() {
 		scen{Kind: "history", Lattice: L25, Workers: 2, Every: 0, Bound: 1},
 		scen{Kind: "octree", Workers: 1, Bound: -1}, scen{Kind: "svg", Workers: 1, Bound: -1},
 		scen{Kind: "octree-history", Workers: 1, Bound: -1}, scen{Kind: "reuse-octree", Workers: 1, Bound: -1}, scen{Kind: "reuse-uniform", Workers: 2, Bound: 1},
+		scen{Kind: "uniform-big-layer", Workers: 2, Bound: 0, PoliciesOnly: true}, scen{Kind: "uniform-big-layer", Workers: 3, Bound: 0, PoliciesOnly: true},
 		scen{Kind: "octree-deep", Workers: 2, Bound: 0, PoliciesOnly: true}, scen{Kind: "octree-deep", Workers: 4, Bound: 0, PoliciesOnly: true},
 		scen{Kind: "reuse-model-octree", Workers: 1, Bound: 0, PoliciesOnly: true}, scen{Kind: "reuse-model-quadtree", Workers: 1, Bound: 0, PoliciesOnly: true},
 		scen{Kind: "reuse-quadtree", Workers: 1, Bound: -1}, scen{Kind: "reuse-squares", Workers: 1, Bound: -1}, scen{Kind: "reuse-dc2d", Workers: 1, Bound: -1},
 		scen{Kind: "stl-two", Workers: 1, Bound: -1}, scen{Kind: "stl-path-history", Workers: 1, Bound: -1}, scen{Kind: "svg-path-history", Workers: 1, Bound: -1},
-		scen{Kind: "dxf-two", Workers: 1, Bound: -1}, scen{Kind: "dxf-history", Workers: 1, Bound: -1}, scen{Kind: "3mf-two", Workers: 1, Bound: -1},
+		scen{Kind: "dxf-two", Workers: 1, Bound: -1}, scen{Kind: "dxf-history", Workers: 1, Bound: -1}, scen{Kind: "3mf-two", Workers: 1, Bound: -1}, scen{Kind: "3mf-two-empty", Workers: 1, Bound: -1}, scen{Kind: "dxf-two-empty", Workers: 1, Bound: -1},
 		scen{Kind: "dxf-todxf-savedxf", Workers: 1, Bound: -1}, scen{Kind: "dxf-todxf-poly", Workers: 1, Bound: -1}, scen{Kind: "svg-long", Workers: 1, Bound: -1},
 		scen{Kind: "one-buffer-two-renders-3d", Workers: 1, Bound: -1}, scen{Kind: "one-buffer-two-renders-2d", Workers: 1, Bound: -1},
 		scen{Kind: "real-shapes", Workers: 2, Bound: 0, PoliciesOnly: true}, scen{Kind: "real-shapes", Workers: 3, Bound: 0, PoliciesOnly: true}, scen{Kind: "bezier-twice", Workers: 1, Bound: 0, PoliciesOnly: true})
